@@ -125,7 +125,9 @@ static std::vector<RaceReport> read_tsan_reports()
 static void part_tsan(vf::Run& R)
 {
     bool const thorough = R.thorough();
-    std::vector<Variant> variants = {{"rec", false}, {"calo", true}};
+    std::vector<Variant> variants = {{"rec", false, TrackOrder::none},
+                                     {"calo", true, TrackOrder::init_charge},
+                                     {"recsort", false, TrackOrder::reindex_particle_type}};
     unsigned const slots = 4;
     uint64_t outer = 0;
     // (T, assignment) cases: assignment[e] = stream of event e
